@@ -26,11 +26,11 @@ var Root = func() string {
 
 // Job is one exploration of a portfolio.
 type Job struct {
-	Sc        wx.Scenario
-	MaxDepth  int
-	MaxStates int
-	Weight    float64 // share of the time budget
-	Note      string
+	Sc               wx.Scenario
+	MaxDepth         int
+	MaxStates        int
+	Weight           float64 // share of the time budget
+	Note             string
 	CheckEveryReplay bool
 }
 
@@ -83,13 +83,13 @@ func LoadFindings() []Finding {
 
 // ReplayFile is a stored counterexample.
 type ReplayFile struct {
-	Property string   `json:"property"`
-	Scenario string   `json:"scenario"`
-	Sig      string   `json:"sig"`
-	Msg      string   `json:"msg"`
-	Ops      []wx.Op  `json:"ops"`
-	OpsText  []string `json:"ops_text"`
-	Kind     string   `json:"kind,omitempty"`
+	Property string                 `json:"property"`
+	Scenario string                 `json:"scenario"`
+	Sig      string                 `json:"sig"`
+	Msg      string                 `json:"msg"`
+	Ops      []wx.Op                `json:"ops"`
+	OpsText  []string               `json:"ops_text"`
+	Kind     string                 `json:"kind,omitempty"`
 	Extra    map[string]interface{} `json:"extra,omitempty"`
 }
 
